@@ -21,6 +21,6 @@ Extraction "swiftmt_model.ml"
   Classify.Model.has_reject Classify.Model.has_return Classify.Model.is_cover Classify.Model.plugin_method
   Headers.Hdr12.parse_b1 Headers.Hdr12.display_b1 Headers.Hdr12.parse_b2 Headers.Hdr12.display_b2 Headers.Hdr12.message_type_of
   Headers.Blocks.extract_block Headers.Blocks.trailer_display Headers.Blocks.user_header_display Headers.Hdr35.read_tag
-  Legacy.Block4Map.parse_block4_fields Legacy.Block4Map.stamp Legacy.Tracker.lookup_variant Legacy.Tracker.split_into_sequences Legacy.Tracker.get_sequence_config
+  Legacy.Block4Map.parse_block4_fields Legacy.Block4Map.stamp Legacy.Tracker.lookup_variant Legacy.Tracker.values_of Legacy.Tracker.mark_consumed Legacy.Tracker.next_available Legacy.Tracker.split_into_sequences Legacy.Tracker.get_sequence_config
   Family.Model.named_core Family.Model.pwv_core Family.Defs.family_named Family.Defs.ptag Family.Defs.positions
   Rules.All.validate_rules Fmt.Defs.format_accepts.
